@@ -496,7 +496,10 @@ class ClientSSM(SSM):
             else:
                 if _debug: ClientSSM._debug("    - more segments to send")
 
-                self.initialSequenceNumber = (apdu.apduSeq + 1) % 256
+                # sequence numbers on the wire are modulo 256, keep the start
+                # of the window as an absolute segment index so that messages
+                # of more than 256 segments do not start over
+                self.initialSequenceNumber += ((apdu.apduSeq - self.initialSequenceNumber) % 256) + 1
                 self.segmentRetryCount = 0
                 self.fill_window(self.initialSequenceNumber)
                 self.restart_timer(self.segmentTimeout)
@@ -1126,7 +1129,10 @@ class ServerSSM(SSM):
             else:
                 if _debug: ServerSSM._debug("    - more segments to send")
 
-                self.initialSequenceNumber = (apdu.apduSeq + 1) % 256
+                # sequence numbers on the wire are modulo 256, keep the start
+                # of the window as an absolute segment index so that messages
+                # of more than 256 segments do not start over
+                self.initialSequenceNumber += ((apdu.apduSeq - self.initialSequenceNumber) % 256) + 1
                 self.actualWindowSize = apdu.apduWin
                 self.segmentRetryCount = 0
                 self.fill_window(self.initialSequenceNumber)
